@@ -495,6 +495,7 @@ pub fn suffix_strat() -> BoxedStrategy<Option<String>> {
         1 => Just(Some("l".to_string())),
         1 => Just(Some("log.txt".to_string())),
         1 => Just(Some("log_raw".to_string())),
+        1 => Just(Some("gz".to_string())),
     ]
     .boxed()
 }
